@@ -178,6 +178,20 @@ def check(ctx):
                    "the flag consulted is this schema's, evaluated on the configuration being validated" if okc else
                    "the feature flag is not evaluated on the configuration being validated", node=n)
 
+    # the exemption is decided from this schema's own flag fields on the configuration being validated -- nothing above it
+    ife = model.method("Schema", "_is_feature_enabled")
+    cp = ife.positional_params[1]
+    for x in ast.walk(ife.node):
+        if isinstance(x, ast.Call) and isinstance(x.func, ast.Attribute) and x.func.attr in ("is_feature_enabled", "_is_feature_enabled"):
+            okx = bool(x.args) and all(k == "param" and p == cp for k, p in value_sources(ife, x.args[0], None))
+            own = x.func.attr == "is_feature_enabled"
+            ctx.ob("exemption.scope", ife, x, okx and own,
+                   "a flag field of this schema, evaluated on the configuration being validated" if okx and own else
+                   "the exemption of a configuration depends on %s: a configuration that is itself enabled can be exempted by something "
+                   "outside it" % ("another configuration's flags (%s)" % ast.unparse(x)[:50]), node=x)
+        if isinstance(x, ast.Attribute) and x.attr in ("_parent", "_container") and model.enclosing_function(x) is ife:
+            ctx.ob("exemption.scope", ife, x, False,
+                   "the exemption looks at %s: flags of an enclosing configuration exempt this one" % ast.unparse(x), node=x)
     # handlers: raise or append that error
     handlers = [n for n in g.nodes if n.kind == "handler"]
     ctx.need(len(handlers) >= 2, "Schema._validate has no exception handlers any more")
